@@ -11,7 +11,12 @@ import json, os, shutil, subprocess, sys
 args = sys.argv[1:]
 sandbox = None
 SET = 'seeded'
-while args and args[0] in ('--sandbox', '--set'):
+TARGET_ONLY = False
+while args and args[0] in ('--sandbox', '--set', '--target-only'):
+    if args[0] == '--target-only':
+        TARGET_ONLY = True     # re-run only the check of the property the seed was aimed at; updates that one entry
+        args = args[1:]
+        continue
     if args[0] == '--sandbox':
         sandbox = args[1]
     else:
@@ -43,7 +48,8 @@ try:
             print(sid, 'patch does not apply', flush=True); continue
         det = {}
         try:
-            for pid in sorted(PROPS):
+            tgt_ = json.load(open(f'{d}/meta.json')).get('property')
+            for pid in ([tgt_] if TARGET_ONLY else sorted(PROPS)):
                 r = subprocess.run(['python3', f'{VERIF}/checklib/main.py', pid, 'quick'], cwd=VERIF, capture_output=True, text=True, env=env)
                 line = [l for l in r.stdout.split('\n') if l.startswith('VIOLATION') or l.startswith('OK')]
                 line = line[-1] if line else r.stdout[-200:]
@@ -52,6 +58,11 @@ try:
         finally:
             subprocess.run(['git', '-C', REPO, 'checkout', '--', '.'])
         meta = json.load(open(f'{d}/meta.json'))
+        if TARGET_ONLY:
+            old = dict(meta.get('detected_by') or {})
+            old.pop(tgt_, None)
+            old.update(det)
+            det = old
         meta['detected_by'] = det
         json.dump(meta, open(f'{d}/meta.json', 'w'), indent=1)
         print(sid, meta['property'], det, flush=True)
